@@ -605,8 +605,49 @@ class _State:
                     else:
                         ops.append(Op("condassign", self.opnd(st.test), node=st))
                 return ops
+            if isinstance(st, ast.If) and not st.orelse and len(st.body) == 1 and isinstance(st.body[0], ast.Return) \
+                    and isinstance(st.body[0].value, ast.Name) and st.body[0].value.id == self.v \
+                    and self._is_zero_median_test(st.test) and not self._arith_on_v(stmts[i + 1:]):
+                # `if not zero_median or not close_to_zero: return v` - what follows only substitutes the signed
+                # zeros: the zero-median snap, written with a guard clause
+                ops.append(Op("nudge", node=st))
+                self.done = True
+                return ops
             ops += self.stmt(st)
         return ops
+
+    def _arith_on_v(self, stmts) -> bool:
+        for st in stmts:
+            for n in ast.walk(st):
+                if isinstance(n, ast.BinOp) and isinstance(n.op, (ast.Add, ast.Sub, ast.Mult, ast.Div, ast.FloorDiv, ast.Mod, ast.Pow)) \
+                        and (_mentions(n.left, self.v) or _mentions(n.right, self.v)):
+                    return True
+                if isinstance(n, ast.AugAssign) and (_mentions(n.target, self.v) or _mentions(n.value, self.v)):
+                    return True
+                if isinstance(n, ast.Call) and any(_mentions(a, self.v) for a in n.args) and \
+                        (ap(n.func) or "") not in ("math.fabs", "abs", "math.copysign"):
+                    return True
+        return False
+
+    def _is_nudge_helper_call(self, e: ast.AST) -> bool:
+        """`self._helper(v, ..)` whose result is the zero-median nudge: zero unless zero_median applies."""
+        if not isinstance(e, ast.Call):
+            return False
+        callee = self._resolve_method(e)
+        if callee is None:
+            return False
+        rets = [r for r in walk(callee.node) if isinstance(r, ast.Return) and r.value is not None]
+        if not rets:
+            return False
+        from ..core import facts as _facts
+        zero_under_switch = False
+        for r in rets:
+            is_zero = isinstance(r.value, ast.Constant) and r.value.value == 0 and not isinstance(r.value.value, bool)
+            if is_zero and any(any(isinstance(x, ast.Attribute) and x.attr == "zero_median" or
+                                   isinstance(x, ast.Name) and x.id == "zero_median" for x in ast.walk(e_))
+                               for e_, _pol in _facts(r, callee.node)):
+                zero_under_switch = True
+        return zero_under_switch
 
     def _stores_v(self, node) -> bool:
         return any(s.path == self.v for s in stores(node, into_defs=False))
@@ -616,6 +657,8 @@ class _State:
         if isinstance(st, ast.Expr) and isinstance(st.value, ast.Constant):
             return []
         if isinstance(st, ast.AugAssign) and isinstance(st.target, ast.Name) and st.target.id == v:
+            if isinstance(st.op, ast.Add) and self._is_nudge_helper_call(st.value):
+                return [Op("nudge", node=st)]
             if _mentions(st.value, v):
                 return [Op("call", node=st, name="nonlinear-update")]
             kind = {ast.Add: "add", ast.Sub: "sub", ast.Mult: "mul", ast.Div: "div"}.get(type(st.op))
@@ -745,6 +788,8 @@ class _State:
             return []
         if isinstance(e, ast.BinOp):
             lm, rm = _mentions(e.left, v), _mentions(e.right, v)
+            if lm and isinstance(e.op, ast.Add) and self._is_nudge_helper_call(e.right):
+                return self.expr(e.left) + [Op("nudge", node=e)]
             if lm and rm:
                 return [Op("call", node=e, name="nonlinear")]
             if lm:
@@ -1304,7 +1349,7 @@ def _argtxt(args, kwargs) -> str:
 
 def _apply(num: Num, ops: List[Op], x: float, env: Dict[str, Any]) -> float:
     for o in ops:
-        if o.kind in ("nudge", "round", "trunc"):
+        if o.kind in ("nudge", "round", "trunc", "condassign", "condreturn"):
             continue
         if o.kind == "cond":
             if num.ev(o.a, env):
